@@ -104,3 +104,30 @@ Theorem C26_cache_stale_without_invalidation :
   compute (gr s') 30%N (KSub (TInst 0%N []) (TInst 1%N [])) = ABool true.
 Proof. exact cache_stale_without_invalidation. Qed.
 Print Assumptions C26_cache_stale_without_invalidation.
+
+(* --- the providers' own cache (_get_generators_for is lru_cached) ------------------------------
+   For every history of requests and generator-table changes in which each change is followed by
+   clear_generator_cache (as TestCluster.update_return_type does) a request is answered as by a
+   provider freshly built on the final table; after clear_generator_cache this holds whatever
+   happened before. *)
+Theorem C26_provider_cache_fresh : forall k anyd prims g tb ops typ,
+  forallb disciplined ops = true ->
+  let s' := fst (prun k anyd prims {| pgr := g; ptb := tb; pca := [] |} ops) in
+  snd (pstep k anyd prims s' (PQuery typ)) = Some (offered k (pgr s') anyd prims (ptb s') typ).
+Proof. exact provider_cache_fresh. Qed.
+Print Assumptions C26_provider_cache_fresh.
+
+Theorem C26_provider_cache_fresh_after_clear : forall k anyd prims s ops typ,
+  let s' := fst (pstep k anyd prims (fst (prun k anyd prims s ops)) PClear) in
+  snd (pstep k anyd prims s' (PQuery typ)) = Some (offered k (pgr s') anyd prims (ptb s') typ).
+Proof. exact provider_cache_fresh_after_clear. Qed.
+Print Assumptions C26_provider_cache_fresh_after_clear.
+
+(* The unrestricted statement is FALSE of the code: a graph update does not reach the provider
+   cache.  Known finding provider-cache-stale:graph-update. *)
+Theorem C26_provider_cache_stale_after_graph_update :
+  let s' := fst (prun PRand 30%N [] {| pgr := g_ex; ptb := tb_ph; pca := [] |} [PQuery t_K; PEdge 6%N 1%N]) in
+  snd (pstep PRand 30%N [] s' (PQuery t_K)) = Some [0%N] /\
+  offered PRand (pgr s') 30%N [] (ptb s') t_K = [0%N; 1%N].
+Proof. exact provider_cache_stale_after_graph_update. Qed.
+Print Assumptions C26_provider_cache_stale_after_graph_update.
